@@ -275,6 +275,9 @@ def find_local_assign(fn, name):
             for t in n.targets:
                 if isinstance(t, ast.Name) and t.id == name:
                     out.append(n.value)
+        elif isinstance(n, ast.AnnAssign) and n.value is not None and isinstance(n.target, ast.Name) and \
+                n.target.id == name:
+            out.append(n.value)           # an annotated assignment binds like a plain one
     return out
 
 
